@@ -460,12 +460,13 @@ func HarnessC18Values() {
 // ---- widthratio: nearest integer to cur/max*width (either tie rule) ----
 func HarnessC18Widthratio() {
 	// 8-bit symbolic operands (zero-extended): keeps the int->float conversions cheap for the solver
-	cur, max, width := int(verifByte())-128, int(verifByte()), int(verifByte()) // cur may be negative
+	// cur (possibly negative) and width are symbolic 8-bit operands; the divisor is drawn by a choice
+	// variable so that each path divides by a constant (keeps the FP queries within the solvers' reach)
 	lim := verifParam("range", 50)
+	cur, width := int(verifByte())-128, int(verifByte())
+	max := 1 + verifChoice(lim)
 	verifAssume(cur >= -lim)
 	verifAssume(cur <= lim)
-	verifAssume(max >= 1)
-	verifAssume(max <= lim)
 	verifAssume(width <= lim)
 	if verifKnown("C18-widthratio-ceil") {
 		verifAssume(false)
